@@ -391,6 +391,11 @@ func (g *docGen) value(depth int) *rj.Node {
 	case 3, 4:
 		return &rj.Node{K: rj.Num, Lit: genNumberLit(g.t)}
 	case 5, 6:
+		if g.p.KeyAlpha > 0 && rapid.IntRange(0, 2).Draw(g.t, "strfromkeys") == 0 {
+			// string values equal to keys and to each other (a serializer stores equal strings once)
+			src := []byte(keyAlphabet[rapid.IntRange(0, g.p.KeyAlpha-1).Draw(g.t, "skey")])
+			return &rj.Node{K: rj.Str, S: mustDecode(src), Src: src}
+		}
 		s, o := genString(g.t, g.p.RichStr)
 		return &rj.Node{K: rj.Str, S: o, Src: s}
 	case 7, 8:
